@@ -75,6 +75,46 @@ func genC38(g *gen) {
 	g.line("Definition gen_delta : N := %d.", nz(delta))
 	g.line("Definition gen_return_adjust : N := %d.", nz(adjust))
 	g.line("Definition gen_next_is_single_atomic_add : bool := %s.", coqBool(single))
+
+	// Wiring in peer.Connection: the allocator is created once, in the
+	// constructor, from the transport connection's role, and NextStreamID only
+	// delegates to it.
+	pf := parseFile("internal/peer/connection.go")
+	ctorInit, nextDirect := false, false
+	if fd := findFunc(pf, "", "NewConnection"); fd != nil && fd.Body != nil {
+		ast.Inspect(fd.Body, func(n ast.Node) bool {
+			if kv, ok := n.(*ast.KeyValueExpr); ok {
+				if k, ok := kv.Key.(*ast.Ident); ok && k.Name == "streamAlloc" {
+					if src(kv.Value) == "transport.NewStreamIDAllocator(conn.IsDialer())" {
+						ctorInit = true
+					}
+				}
+			}
+			return true
+		})
+	}
+	if fd := findFunc(pf, "Connection", "NextStreamID"); fd != nil && fd.Body != nil && len(fd.Body.List) == 1 {
+		if r, ok := fd.Body.List[0].(*ast.ReturnStmt); ok && len(r.Results) == 1 && src(r.Results[0]) == "c.streamAlloc.Next()" {
+			nextDirect = true
+		}
+	}
+	// any other assignment to the field outside the constructor?
+	reassigned := false
+	for _, f2 := range parseDir("internal/peer") {
+		ast.Inspect(f2, func(n ast.Node) bool {
+			if as, ok := n.(*ast.AssignStmt); ok {
+				for _, l := range as.Lhs {
+					if sel, ok := l.(*ast.SelectorExpr); ok && sel.Sel.Name == "streamAlloc" {
+						reassigned = true
+					}
+				}
+			}
+			return true
+		})
+	}
+	g.line("Definition gen_conn_alloc_in_constructor : bool := %s.", coqBool(ctorInit))
+	g.line("Definition gen_conn_next_delegates : bool := %s.", coqBool(nextDirect))
+	g.line("Definition gen_conn_alloc_reassigned : bool := %s.", coqBool(reassigned))
 }
 
 // fieldIsAtomicUint64 reports whether expr is "<recv>.<field>" with field of
